@@ -73,7 +73,7 @@ void hist_print(struct sb *b, const struct hist *h)
 }
 
 /* ------------------------------------------------------------------ root configurations */
-static const char *CFGNAMES[] = { "default", "keepall+disallowed", "structure", "keepall" };
+static const char *CFGNAMES[] = { "default", "keepall+disallowed", "structure", "keepall+support" };
 int hist_ncfg(void) { return 4; }
 const char *hist_cfg_name(int i) { return CFGNAMES[i]; }
 void hist_cfg(int i, struct ucfg *c)
@@ -83,7 +83,7 @@ void hist_cfg(int i, struct ucfg *c)
   case 0: break;
   case 1: c->all_filter = HWLOC_TYPE_FILTER_KEEP_ALL; c->flags = HWLOC_TOPOLOGY_FLAG_INCLUDE_DISALLOWED; break;
   case 2: c->all_filter = HWLOC_TYPE_FILTER_KEEP_STRUCTURE; c->group_setter = 3; c->group_filter = HWLOC_TYPE_FILTER_KEEP_ALL; c->filt[HWLOC_OBJ_MISC] = HWLOC_TYPE_FILTER_KEEP_ALL; break;
-  case 3: c->all_filter = HWLOC_TYPE_FILTER_KEEP_ALL; break;
+  case 3: c->all_filter = HWLOC_TYPE_FILTER_KEEP_ALL; c->flags = HWLOC_TOPOLOGY_FLAG_IMPORT_SUPPORT; break;   /* support bits of the file (fixture support.xml) become part of the state */
   }
 }
 
